@@ -504,7 +504,7 @@ impl Either {
     }
 }
 #[derive(Clone, Debug)]
-enum Item { Announce(u32), PadExact(usize), PadAbout(usize, bool) }   // PadAbout(n, with ping requests)
+enum Item { Announce(u32), PadExact(usize), PadAbout(usize, bool), Bandwidth(u32, u8) }   // PadAbout(n, with ping requests); Bandwidth = SetPeerBandwidth(size, limit type), 17 bytes, NOT a window announcement
 // exact-size harmless traffic: unknown-type messages with full (format 0) headers: 12 + payload bytes each, payload <= 128
 fn pad_exact(p: &mut Peer, mut n: usize, out: &mut Vec<u8>, k: &mut u8) {
     while n > 0 {
@@ -557,6 +557,7 @@ fn c17_run(kind: &str, warm: bool, items: &[Item], calls: &[usize], tail: usize,
     for it in items { match it {
         Item::Announce(w) => { stream.extend(p.wack(*w)); ann.push((stream.len(), *w)); }
         Item::PadExact(n) => pad_exact(&mut p, *n, &mut stream, &mut k),
+        Item::Bandwidth(n, lt) => stream.extend(p.spb_t(*n, *lt)),
         Item::PadAbout(n, pings) => pad_about(&mut p, *n, *pings, rng, &mut stream, &mut k),
     } }
     let need: usize = calls.iter().sum::<usize>() + tail;
@@ -586,6 +587,11 @@ fn mode_c17(seed: u64) {
     let mut rng = Rng(seed ^ 0xC17C17);
     const A: usize = 16;    // a WindowAcknowledgement message on the wire: 12 header bytes + 4
     for kind in ["server", "client"] {
+        // a SetPeerBandwidth message (any limit type, smaller or larger than the window) is ordinary traffic: it is counted and changes nothing
+        for lt in 0..3u8 { for &bw in &[10u32, 1, 1000] {
+            let items = vec![Item::Announce(100), Item::PadExact(30), Item::Bandwidth(bw, lt), Item::PadAbout(1, false)];
+            for calls in [vec![A, 30, 17, 1, 1, 50, 1, 1, 100, 99, 1], vec![A, 30, 17, 53, 100], vec![A + 30 + 17, 99, 1, 10, 10, 80]] { c17_run(kind, false, &items, &calls, 0, &mut rng); }
+        } }
         let mut windows: Vec<u32> = (1..=20).collect(); windows.extend_from_slice(&[100, 127, 128, 129, 1000, 4096, 5000, 65535, 65536, 1_000_000]);
         for &w in &windows {
             let wz = w as usize;
